@@ -34,10 +34,12 @@ void harness(void)
 
 	VERIF_ASSUME(n <= NB);
 	VERIF_ASSUME(seq0 < 0xFFFFFF00u);
-	for (i = 0; i < 4; ++i)
-		c09_bp_block(BLK(i));
-	c09_bp_block(&g_cur);
-	c09_bp_block(&g_frag);
+	c09_bp_block(BLK(0), FL0);
+	c09_bp_block(BLK(1), FL1);
+	c09_bp_block(BLK(2), FL2);
+	c09_bp_block(BLK(3), FL3);
+	c09_bp_block(&g_cur, 0);
+	c09_bp_block(&g_frag, SQFS_BLK_FRAGMENT_BLOCK);
 	g_inpool = n;
 	g_pstatus = verif_nd_int("pool_status");
 	/* a pool that has already failed holds at least the failed item's
